@@ -110,6 +110,27 @@ def plane_intersection_distance_rule(cx):
           'surface point\'s normal; a position enters only as a difference projected on the plane normal', where=b.file, found=somes[0][1] if somes else None)
 
 
+
+def distance_conversion_rules(cx):
+    """shared with C16 (a converted distance keeps its value only if its direction stays a unit vector moved by the rotation alone)"""
+    # ---------------------------------------------------------------- Distance 2D <-> 3D
+    b = cx.fn('metrology::dimension::Distance::to_3d')
+    if b:
+        cx.expect('KIND', 'Distance2::to_3d', cx.retval(b),
+                  '(call *Distance::new (call Isometry::mul (param iso) (call OPoint::to_3d (self a))) (call Isometry::mul (param iso) (call OPoint::to_3d (self b))) '
+                  '(agg *Option::Some (0 (call Isometry::mul (param iso) (call Unit::to_3d (self direction))))))',
+                  'a and b are lifted then moved by the full isometry, the direction is lifted then rotated', where=b.file)
+        ks = sorted(k for _, k in iso_apps(cx, b, 'iso'))
+        cx.ob('KIND', 'Distance2::to_3d:kinds', ks == ['point', 'point', 'unit'], 'two point applications and one rotation-only application', found=str(ks))
+    b = cx.fn('metrology::dimension::Distance::to_2d')
+    if b:
+        cx.expect('KIND', 'Distance3::to_2d', cx.retval(b),
+                  '(call *Distance::new (call OPoint::to_2d (call Isometry::mul (param iso) (self a))) (call OPoint::to_2d (call Isometry::mul (param iso) (self b))) '
+                  '(agg *Option::Some (0 (call Unit::to_2d (call Isometry::mul (param iso) (self direction))))))',
+                  'a and b are moved by the full isometry then projected, the direction is rotated then projected', where=b.file)
+        ks = sorted(k for _, k in iso_apps(cx, b, 'iso'))
+        cx.ob('KIND', 'Distance3::to_2d:kinds', ks == ['point', 'point', 'unit'], 'two point applications and one rotation-only application', found=str(ks))
+
 def run(cx):
     # crate-wide: a position enters a dot product only inside a difference of projections (or as the plane offset)
     E.posdot(cx, floor=5)
@@ -221,23 +242,7 @@ def run(cx):
                 ok = ok and match('(call Isometry::mul (field _ (param 1)) (param 2))', cx.retval(cl)) is not None
             cx.ob('KIND', f'TransformBy:{n}', ok, 'TransformBy for point collections maps every point through the full isometry', where=bb.file, found=r)
     cx.floor('KIND', 'TransformBy', n, 2, 'TransformBy impls for point collections')
-    # ---------------------------------------------------------------- Distance 2D <-> 3D
-    b = cx.fn('metrology::dimension::Distance::to_3d')
-    if b:
-        cx.expect('KIND', 'Distance2::to_3d', cx.retval(b),
-                  '(call *Distance::new (call Isometry::mul (param iso) (call OPoint::to_3d (self a))) (call Isometry::mul (param iso) (call OPoint::to_3d (self b))) '
-                  '(agg *Option::Some (0 (call Isometry::mul (param iso) (call Unit::to_3d (self direction))))))',
-                  'a and b are lifted then moved by the full isometry, the direction is lifted then rotated', where=b.file)
-        ks = sorted(k for _, k in iso_apps(cx, b, 'iso'))
-        cx.ob('KIND', 'Distance2::to_3d:kinds', ks == ['point', 'point', 'unit'], 'two point applications and one rotation-only application', found=str(ks))
-    b = cx.fn('metrology::dimension::Distance::to_2d')
-    if b:
-        cx.expect('KIND', 'Distance3::to_2d', cx.retval(b),
-                  '(call *Distance::new (call OPoint::to_2d (call Isometry::mul (param iso) (self a))) (call OPoint::to_2d (call Isometry::mul (param iso) (self b))) '
-                  '(agg *Option::Some (0 (call Unit::to_2d (call Isometry::mul (param iso) (self direction))))))',
-                  'a and b are moved by the full isometry then projected, the direction is rotated then projected', where=b.file)
-        ks = sorted(k for _, k in iso_apps(cx, b, 'iso'))
-        cx.ob('KIND', 'Distance3::to_2d:kinds', ks == ['point', 'point', 'unit'], 'two point applications and one rotation-only application', found=str(ks))
+    distance_conversion_rules(cx)
     # the optional transform of project_with_tol: applied to the query exactly once, and the angle measured from that same query (rule shared with C02)
     from rules.C02 import project_with_tol_rules
     project_with_tol_rules(cx)
